@@ -3,7 +3,7 @@
    makegammas tables as data, pixel-level mode synthesis), tied to aotools/functions/zernike.py by the
    correspondence check. *)
 From Coq Require Import ZArith QArith Reals List.
-Require Import AOV.base.Num AOV.base.NumR AOV.model.Pupil AOV.model.Zernike AOV.proofs.C12_proofs AOV.proofs.C12_rest.
+Require Import AOV.base.Num AOV.base.NumR AOV.model.Pupil AOV.model.Zernike AOV.proofs.C12_proofs AOV.proofs.C12_rest AOV.proofs.C12_rot.
 Import ListNotations.
 Local Open Scope Z_scope.
 
@@ -101,3 +101,18 @@ Local Open Scope Z_scope.
 
 Example C12_nonvacuous : valid_nm 4 (-2) /\ zern_index 13 = (4, -2) /\ noll_of_nm 4 (-2) = 13.
 Proof. repeat split; try reflexivity; cbv; intros; discriminate. Qed.
+
+
+(* rotation: the cos / sin partners of one (n, |m|) rotate together -- the rotated pair is the 2 x 2 rotation of the
+   unrotated pair, pixel by pixel, for every n, m > 0, grid size and angle; m = 0 modes do not depend on the angle *)
+Theorem C12_rotation_of_a_cos_sin_pair : forall G K n m N rot i j, (0 < m)%Z -> (i < N)%nat -> (j < N)%nat ->
+  nth j (nth i (zernike_nm (ROps G K) n m N rot) []) 0%R =
+    (cos rot * nth j (nth i (zernike_nm (ROps G K) n m N 0%R) []) 0 - sin rot * nth j (nth i (zernike_nm (ROps G K) n (- m) N 0%R) []) 0)%R
+  /\ nth j (nth i (zernike_nm (ROps G K) n (- m) N rot) []) 0%R =
+    (sin rot * nth j (nth i (zernike_nm (ROps G K) n m N 0%R) []) 0 + cos rot * nth j (nth i (zernike_nm (ROps G K) n (- m) N 0%R) []) 0)%R.
+Proof. exact zernike_nm_rot_pair. Qed.
+Print Assumptions C12_rotation_of_a_cos_sin_pair.
+
+Theorem C12_rotation_leaves_m0_modes_alone : forall G K n N rot i j, (i < N)%nat -> (j < N)%nat ->
+  nth j (nth i (zernike_nm (ROps G K) n 0 N rot) []) 0%R = nth j (nth i (zernike_nm (ROps G K) n 0 N 0%R) []) 0%R.
+Proof. exact zernike_nm_rot_m0. Qed.
